@@ -427,6 +427,7 @@ def live_copy_tier(tier, seed, stats):
 
 
 PROP = Property(
+    prelude=True,
     id="C08",
     level="exploration",
     rule=("Hypothesis generates /proc/meminfo (MemTotal, MemFree + any subset "
